@@ -47,7 +47,7 @@ const HANG_EXIT: i32 = 4;
 
 /// Run `f` on a helper thread; if it does not finish in time the process exits with HANG_EXIT after
 /// writing a marker (the orchestrator turns that into a violation with the current case).
-fn with_hang_guard<T: Send + 'static>(what: &str, secs: u64, f: impl FnOnce() -> T + Send + 'static) -> T {
+pub fn with_hang_guard<T: Send + 'static>(what: &str, secs: u64, f: impl FnOnce() -> T + Send + 'static) -> T {
     let (tx, rx) = mpsc::channel();
     std::thread::spawn(move || {
         let _ = tx.send(f());
